@@ -985,6 +985,10 @@ func (interp *Interpreter) cfg(root *node, sc *scope, importPath, pkgName string
 				// To avoid a copy in frame, if the result is to be returned, store it directly
 				// at the frame location reserved for output arguments.
 				n.findex = childPos(n)
+				if isInterface(sc.def.typ.ret[n.findex]) && !isInterface(n.typ) {
+					// Same as above: let the return statement convert to the interface type.
+					n.findex = sc.add(n.typ)
+				}
 			default:
 				// Allocate a new location in frame, and store the result here.
 				n.findex = sc.add(n.typ)
@@ -2299,6 +2303,11 @@ func (interp *Interpreter) cfg(root *node, sc *scope, importPath, pkgName string
 				n.level = dest.level
 			case n.anc.kind == returnStmt:
 				pos := childPos(n)
+				if isInterface(sc.def.typ.ret[pos]) && !isInterface(n.typ) {
+					// Same as above: let the return statement convert to the interface type.
+					n.findex = sc.add(n.typ)
+					break
+				}
 				n.typ = sc.def.typ.ret[pos]
 				n.findex = pos
 			default:
